@@ -17,6 +17,9 @@
  *        -> ret <v0> <v1> ... pages <p> size <s> [blocked <t>...]      (ret of an unfinished op: -)
  *   grow_sched seq <initialPages> <maxPages> <shared> <delta>...           (one thread, consecutive grows)
  *        -> ret <v>... pages <p> size <s>
+ *   grow_sched content <initialPages> <maxPages> <reallocFails> <delta>...   NON-shared memory filled with a pattern;
+ *        realloc returns a fresh block with a dirty (0xAA) tail; after every grow:
+ *        -> r=<ret>,p=<pages>,o=<old bytes intact 0|1>,z=<number of non-zero bytes in the new pages>,f=<first such offset|->
  *   grow_sched alloc <initialPages> <maxPages> <shared>                   -> size <s> pages <p> max <m>
  *   grow_sched touch <initialPages> <maxPages> <shared> <byteOffset>      store one byte (run under ASan)
  *   grow_sched stress <growers> <iterations> <sizeReaders>               free-running (run under TSan)
@@ -33,6 +36,27 @@ static int sched_mutex_unlock(pthread_mutex_t* m);
 #ifndef GROW_FREE_RUNNING
 #define pthread_mutex_lock sched_mutex_lock
 #define pthread_mutex_unlock sched_mutex_unlock
+#endif
+
+/* `content` mode: realloc as the allocator may legally behave — a NEW block whose bytes beyond the old contents are
+ * dirty (0xAA) — so that missing zeroing of grown pages is visible.  Redirected by macro like the mutex calls. */
+static size_t g_blockSize;
+static int g_failRealloc;
+static void* dirty_realloc(void* p, size_t n) {
+    unsigned char* q;
+    size_t keep;
+    if (g_failRealloc) return NULL;
+    q = (unsigned char*)malloc(n ? n : 1);
+    if (!q) return NULL;
+    memset(q, 0xAA, n);
+    keep = g_blockSize < n ? g_blockSize : n;
+    memcpy(q, p, keep);
+    free(p);
+    g_blockSize = n;
+    return q;
+}
+#ifndef GROW_FREE_RUNNING
+#define realloc dirty_realloc
 #endif
 
 #include "w2c2_base.h"
@@ -131,9 +155,38 @@ static int cmd_seq(int argc, char** argv) {
     wasmMemory* mem = wasmMemoryAllocate(init, max, shared != 0);
     printf("ret");
     for (i = 5; i < argc; i++) {
+        g_blockSize = (size_t)mem->pages * 65536u;
         printf(" %u", wasmMemoryGrow(mem, (U32)strtoul(argv[i], NULL, 0)));
     }
     printf(" pages %u size %u\n", mem->pages, mem->size);
+    return 0;
+}
+
+static unsigned char pat(size_t i) { return (unsigned char)(((i * 31u + 7u) & 0xffu) | 1u); }
+
+static int cmd_content(int argc, char** argv) {
+    U32 init = (U32)strtoul(argv[2], NULL, 0), max = (U32)strtoul(argv[3], NULL, 0);
+    int i;
+    size_t k, size;
+    wasmMemory* mem = wasmMemoryAllocate(init, max, false);
+    g_failRealloc = atoi(argv[4]);
+    size = (size_t)init * 65536u;
+    for (k = 0; k < size; k++) mem->data[k] = pat(k);
+    for (i = 5; i < argc; i++) {
+        U32 delta = (U32)strtoul(argv[i], NULL, 0), ret;
+        size_t nz = 0, first = (size_t)-1, newSize;
+        int oldOk = 1;
+        g_blockSize = size;
+        ret = wasmMemoryGrow(mem, delta);
+        newSize = (size_t)mem->pages * 65536u;
+        for (k = 0; k < size && k < newSize; k++) if (mem->data[k] != pat(k)) { oldOk = 0; break; }
+        for (k = size; k < newSize; k++) if (mem->data[k] != 0) { if (!nz) first = k; nz++; }
+        printf("%sr=%u,p=%u,o=%d,z=%lu,f=", i > 5 ? " " : "", ret, mem->pages, oldOk, (unsigned long)nz);
+        if (nz) printf("%lu", (unsigned long)first); else printf("-");
+        for (k = size; k < newSize; k++) mem->data[k] = pat(k);      /* the program now uses the new pages */
+        size = newSize;
+    }
+    printf("\n");
     return 0;
 }
 
@@ -174,6 +227,7 @@ static int cmd_stress(char** argv) {
 int main(int argc, char** argv) {
     if (argc >= 6 && !strcmp(argv[1], "sched")) return cmd_sched(argc, argv);
     if (argc >= 5 && !strcmp(argv[1], "seq")) return cmd_seq(argc, argv);
+    if (argc >= 6 && !strcmp(argv[1], "content")) return cmd_content(argc, argv);
     if (argc == 5 && !strcmp(argv[1], "alloc")) return cmd_alloc(argv);
     if (argc == 6 && !strcmp(argv[1], "touch")) return cmd_touch(argv);
     if (argc == 5 && !strcmp(argv[1], "stress")) return cmd_stress(argv);
